@@ -142,7 +142,7 @@ theorem startup_tst_run (path : Path) (am : Bool) (m : Nat) (roll : RollFn) (ops
 /-- A rotation is requested only while handling the first record after start-up: if the roller is
 invoked by an append that follows the history `ops`, then no append has happened since the
 appender was built (`fresh ops`). -/
-theorem C17_only_first (path : Path) (am : Bool) (m : Nat) (roll : RollFn) (d : Disk) (now : Nat) (ops : List Op)
+theorem C17_only_first_ops (path : Path) (am : Bool) (m : Nat) (roll : RollFn) (d : Disk) (now : Nat) (ops : List Op)
     (r : Rec) (fault : Nat → Bool) :
     let s := (run (startupCfg path am m roll) (init (startupCfg path am m roll) d false now) ops).2
     (append (startupCfg path am m roll) s r fault).1.rolled.isSome → fresh ops = true := by
@@ -167,7 +167,7 @@ theorem C17_only_first (path : Path) (am : Bool) (m : Nat) (roll : RollFn) (d : 
 /-- The first record rolls iff the log file that exists at that moment has at least `min_size`
 bytes (`min_size = 0` and an empty file included). At the first append of a new appender that file
 is what open left: the pre-existing content in append mode, nothing in truncate mode. -/
-theorem C17_iff_big_enough (path : Path) (am : Bool) (m : Nat) (roll : RollFn) (d : Disk) (now : Nat)
+theorem C17_iff_big_enough_ops (path : Path) (am : Bool) (m : Nat) (roll : RollFn) (d : Disk) (now : Nat)
     (r : Rec) (fault : Nat → Bool) :
     let cfg := startupCfg path am m roll
     ((append cfg (init cfg d false now) r fault).1.rolled.isSome ↔
@@ -276,7 +276,236 @@ theorem C17_concurrent_first (path : Path) (am : Bool) (m : Nat) (roll : RollFn)
       simp [restarts, isRestart, List.filter_eq_nil_iff]
     simpa [hz, cfg] using this
 
+/-! ### histories in which encoders may fail (`XOp`)
+
+`RollingFileAppender::append` consults the policy *before* it encodes the record
+(`get_writer → policy.process → get_writer → encode_whole`), so the on-start-up trigger's `Once`
+is consumed by the first record that ARRIVES, whether or not its encoder then fails. The theorems
+below are the general forms: histories and the deciding operation range over `XOp`. -/
+
+theorem startup_appendFail (path : Path) (am : Bool) (m : Nat) (roll : RollFn) (s : St Bool) (r : Rec) (n : Nat)
+    (fault : Nat → Bool) (hwf : WF (startupCfg path am m roll) s) :
+    (appendFail (startupCfg path am m roll) s r n fault).2.tst = true ∧
+    (s.tst = true → (appendFail (startupCfg path am m roll) s r n fault).1.rolled = none) ∧
+    (s.tst = false → ((appendFail (startupCfg path am m roll) s r n fault).1.rolled.isSome ↔
+        (openView (startupCfg path am m roll) s).length ≥ m)) := by
+  obtain ⟨_, ht, _, _, hno, _, hyes⟩ := appendFail_pre_spec (startupCfg path am m roll) s r n fault hwf rfl _ _
+    (appendFail (startupCfg path am m roll) s r n fault).1 (appendFail (startupCfg path am m roll) s r n fault).2 rfl rfl rfl
+  have key : ∀ L, ((startupCfg path am m roll).trig.fire s.tst L s.now) =
+      if s.tst then (.no, true) else (if L ≥ m then .yes else .no, true) := by
+    intro L; simp [startupCfg, onStartupTrigger]
+  refine ⟨?_, ?_, ?_⟩
+  · rw [ht, key]; cases s.tst <;> simp
+  · intro hs
+    have hf : ((startupCfg path am m roll).trig.fire s.tst (openView (startupCfg path am m roll) s).length s.now).1 = .no := by
+      rw [key, hs]; rfl
+    exact (hno hf).2.1
+  · intro hs
+    by_cases hge : (openView (startupCfg path am m roll) s).length ≥ m
+    · have hf : ((startupCfg path am m roll).trig.fire s.tst (openView (startupCfg path am m roll) s).length s.now).1 = .yes := by
+        rw [key, hs]; simp [hge]
+      obtain ⟨d1, _, _, h⟩ := hyes hf
+      rcases h with ⟨_, _, _, hr, _⟩ | ⟨_, _, _, hr, _⟩ <;> simp [hr, hge]
+    · have hf : ((startupCfg path am m roll).trig.fire s.tst (openView (startupCfg path am m roll) s).length s.now).1 = .no := by
+        rw [key, hs]; simp [hge]
+      simp [(hno hf).2.1, hge]
+
+/-- a record arrives at the appender (its encoder may or may not succeed) -/
+def arrival : XOp → Bool
+  | .op (.append _ _) => true
+  | .appendFail _ _ _ => true
+  | _ => false
+
+/-- no record has arrived since the appender was built -/
+def freshX (ops : List XOp) : Bool :=
+  ops.foldl (fun b op => match op with
+    | .op (.append _ _) => false | .appendFail _ _ _ => false | .op .restart => true | .op (.tick _) => b) true
+
+/-- the state after a history -/
+def finalX (cfg : Cfg Bool) (s : St Bool) (ops : List XOp) : St Bool := ops.foldl (fun s op => (applyX cfg s op).2) s
+
+theorem startup_applyX_tst (path : Path) (am : Bool) (m : Nat) (roll : RollFn) (s : St Bool) (op : XOp)
+    (hwf : WF (startupCfg path am m roll) s) :
+    (applyX (startupCfg path am m roll) s op).2.tst =
+      match op with
+      | .op (.append _ _) => true | .appendFail _ _ _ => true | .op .restart => false | .op (.tick _) => s.tst := by
+  cases op with
+  | appendFail r n f => exact (startup_appendFail path am m roll s r n (faultFn f) hwf).1
+  | op o =>
+    have := startup_applyOp_tst path am m roll s o hwf
+    cases o <;> simpa [applyX] using this
+
+theorem WF_finalX (cfg : Cfg Bool) (ops : List XOp) (s : St Bool) (hwf : WF cfg s) : WF cfg (finalX cfg s ops) := by
+  induction ops generalizing s with
+  | nil => exact hwf
+  | cons op ops ih => exact ih _ (WF_applyX cfg s op hwf)
+
+theorem startup_tst_finalX (path : Path) (am : Bool) (m : Nat) (roll : RollFn) (ops : List XOp) (s : St Bool)
+    (hwf : WF (startupCfg path am m roll) s) (b : Bool) (hb : s.tst = !b) :
+    (finalX (startupCfg path am m roll) s ops).tst =
+      !(ops.foldl (fun b op => match op with
+        | .op (.append _ _) => false | .appendFail _ _ _ => false | .op .restart => true | .op (.tick _) => b) b) := by
+  induction ops generalizing s b with
+  | nil => simpa [finalX] using hb
+  | cons op ops ih =>
+    have hwf' := WF_applyX (startupCfg path am m roll) s op hwf
+    have htst := startup_applyX_tst path am m roll s op hwf
+    simp only [finalX, List.foldl_cons]
+    apply ih _ hwf'
+    rw [htst]
+    cases op with
+    | appendFail r n f => simp
+    | op o => cases o <;> simp [hb]
+
+/-- A rotation is requested only while handling the first record that ARRIVES after start-up: if
+any operation following the history `ops` — an append, or an append whose encoder fails — invokes
+the roller, then no record has arrived since the appender was built (`freshX ops`), whatever
+happened to the encoders of the records in `ops`. -/
+theorem C17_only_first (path : Path) (am : Bool) (m : Nat) (roll : RollFn) (d : Disk) (now : Nat) (ops : List XOp)
+    (op : XOp) (out : Out) :
+    let cfg := startupCfg path am m roll
+    (applyX cfg (finalX cfg (init cfg d false now) ops) op).1 = some out → out.rolled.isSome → freshX ops = true := by
+  intro cfg hout hroll
+  have hwf0 := WF_init cfg d false now
+  have hwf := WF_finalX cfg ops _ hwf0
+  have ht0 : (init cfg d false now).tst = false := (getWriter_spec cfg _ (Or.inl rfl)).2.2.2.1
+  have ht := startup_tst_finalX path am m roll ops _ hwf0 true (by simp [ht0])
+  cases hf : freshX ops with
+  | true => rfl
+  | false =>
+    have hst : (finalX cfg (init cfg d false now) ops).tst = true := by
+      rw [ht]
+      simp only [freshX] at hf
+      simp [hf]
+    exfalso
+    cases op with
+    | appendFail r n f =>
+      have := (startup_appendFail path am m roll _ r n (faultFn f) hwf).2.1 hst
+      simp only [applyX] at hout
+      rw [← Option.some.inj hout, this] at hroll
+      simp at hroll
+    | op o =>
+      cases o with
+      | append r f =>
+        have := (startup_append path am m roll _ r (faultFn f) hwf).2.1 hst
+        simp only [applyX, applyOp] at hout
+        rw [← Option.some.inj hout, this] at hroll
+        simp at hroll
+      | restart => simp [applyX, applyOp] at hout
+      | tick dt => simp [applyX, applyOp] at hout
+
+/-- The first record to arrive rolls iff the log file that exists at that moment has at least
+`min_size` bytes — also when its encoder then fails: the decision is taken before the record is
+encoded. (At the first arrival of a new appender the file is what open left: the pre-existing
+content in append mode, nothing in truncate mode.) -/
+theorem C17_iff_big_enough (path : Path) (am : Bool) (m : Nat) (roll : RollFn) (d : Disk) (now : Nat)
+    (op : XOp) (harr : arrival op = true) :
+    let cfg := startupCfg path am m roll
+    ∃ out, (applyX cfg (init cfg d false now) op).1 = some out ∧
+      (out.rolled.isSome ↔ (if am then fileOf cfg d else []).length ≥ m) := by
+  intro cfg
+  have hwf := WF_init cfg d false now
+  have ht0 : (init cfg d false now).tst = false := (getWriter_spec cfg _ (Or.inl rfl)).2.2.2.1
+  have ho : Opened cfg (init cfg d false now) (if am then fileOf cfg d else []) := by
+    have h := (getWriter_spec cfg { disk := d, writer := none, tst := cfg.trig.reinit false now, now := now, opened := false } (Or.inl rfl)).1
+    simpa [openView, init, build, cfg, startupCfg] using h
+  have hov : openView cfg (init cfg d false now) = if am then fileOf cfg d else [] := by
+    obtain ⟨w, hw, _, hg, _⟩ := ho
+    simp [openView, hw, fileOf_of_get hg]
+  cases op with
+  | appendFail r n f =>
+    have := (startup_appendFail path am m roll (init cfg d false now) r n (faultFn f) hwf).2.2 ht0
+    rw [hov] at this
+    exact ⟨_, rfl, this⟩
+  | op o =>
+    cases o with
+    | append r f =>
+      have := (startup_append path am m roll (init cfg d false now) r (faultFn f) hwf).2.2 ht0
+      rw [hov] at this
+      exact ⟨_, rfl, this⟩
+    | restart => simp [arrival] at harr
+    | tick dt => simp [arrival] at harr
+
+/-- … and the same for the first arrival after any history that ends in a fresh appender -/
+theorem C17_iff_big_enough_failing_encoder (path : Path) (am : Bool) (m : Nat) (roll : RollFn) (s : St Bool)
+    (r : Rec) (n : Nat) (fault : Nat → Bool) (hwf : WF (startupCfg path am m roll) s) (hfresh : s.tst = false) :
+    ((appendFail (startupCfg path am m roll) s r n fault).1.rolled.isSome ↔
+      (openView (startupCfg path am m roll) s).length ≥ m) :=
+  (startup_appendFail path am m roll s r n fault hwf).2.2 hfresh
+
+def isRollX : Option Out × St Bool → Bool := fun e => isRoll e.1
+
+def xIsRestart : XOp → Bool
+  | .op .restart => true
+  | _ => false
+
+def restartsX (ops : List XOp) : Nat := (ops.filter xIsRestart).length
+
+/-- at most one rotation request per appender built, over histories with failing encoders -/
+theorem C17_at_most_one_roll_failing_encoders (path : Path) (am : Bool) (m : Nat) (roll : RollFn) (ops : List XOp)
+    (s : St Bool) (hwf : WF (startupCfg path am m roll) s) :
+    ((traceX (startupCfg path am m roll) s ops).filter isRollX).length ≤ (if s.tst then 0 else 1) + restartsX ops := by
+  induction ops generalizing s with
+  | nil => simp [traceX]
+  | cons op ops ih =>
+    have hwf' := WF_applyX (startupCfg path am m roll) s op hwf
+    have ih' := ih _ hwf'
+    have htst := startup_applyX_tst path am m roll s op hwf
+    simp only [traceX, List.filter_cons]
+    -- the roller is not invoked when the `Once` has run; a restart re-arms it
+    have hnone : s.tst = true → isRollX (applyX (startupCfg path am m roll) s op) = false := by
+      intro hst
+      cases op with
+      | appendFail r n f =>
+        simp [isRollX, isRoll, applyX, (startup_appendFail path am m roll s r n (faultFn f) hwf).2.1 hst]
+      | op o =>
+        cases o with
+        | append r f => simp [isRollX, isRoll, applyX, applyOp, (startup_append path am m roll s r (faultFn f) hwf).2.1 hst]
+        | restart => rfl
+        | tick dt => rfl
+    cases op with
+    | appendFail r n f =>
+      have hres : restartsX (XOp.appendFail r n f :: ops) = restartsX ops := by simp [restartsX, xIsRestart]
+      rw [hres]
+      simp [htst] at ih'
+      cases hst : s.tst with
+      | true => simp only [hnone hst]; simp only [Bool.false_eq_true, if_false, if_true]; omega
+      | false => simp only [Bool.false_eq_true, if_false]; split <;> first | (simp only [List.length_cons]; omega) | omega
+    | op o =>
+      cases o with
+      | append r f =>
+        have hres : restartsX (XOp.op (.append r f) :: ops) = restartsX ops := by simp [restartsX, xIsRestart]
+        rw [hres]
+        simp [htst] at ih'
+        cases hst : s.tst with
+        | true => simp only [hnone hst]; simp only [Bool.false_eq_true, if_false, if_true]; omega
+        | false => simp only [Bool.false_eq_true, if_false]; split <;> first | (simp only [List.length_cons]; omega) | omega
+      | restart =>
+        have hres : restartsX (XOp.op .restart :: ops) = restartsX ops + 1 := by
+          simp [restartsX, xIsRestart, List.filter_cons]
+        have : isRollX (applyX (startupCfg path am m roll) s (.op .restart)) = false := rfl
+        rw [hres, this]
+        simp only [htst] at ih'
+        simp only [Bool.false_eq_true, if_false] at ih' ⊢
+        split <;> omega
+      | tick dt =>
+        have hres : restartsX (XOp.op (.tick dt) :: ops) = restartsX ops := by simp [restartsX, xIsRestart]
+        have : isRollX (applyX (startupCfg path am m roll) s (.op (.tick dt))) = false := rfl
+        rw [hres, this]
+        simp only [htst] at ih'
+        simpa using ih'
+
 /-! ### non-vacuity (tests on samples) -/
+
+/-- min_size 3, a 3-byte file, the FIRST record's encoder fails: the rotation is requested by that
+record all the same (the policy runs before the encoder), the second record does not roll -/
+example :
+    let cfg := startupCfg ['a'] true 3 (fun p f d => deleteRoll p f d)
+    let s0 := init cfg (Disk.empty.set ['a'] [1, 2, 3]) false 0
+    let a1 := appendFail cfg s0 [[9]] 0 (fun _ => false)
+    a1.1.res = .errEncode ∧ a1.1.rolled = some true ∧ (append cfg a1.2 [[8]] (fun _ => false)).1.rolled = none := by
+  decide +kernel
+
 
 private def demoPath : Path := ['a']
 
